@@ -51,32 +51,35 @@ def gen_program(rng):
         nxt[0] += 1
         return nxt[0] - 1
     exact, approx = [], []
+    # every object of a program lives in one homological degree H (results must stay there); diagrams of the lower degrees are fillers
+    H = rng.choice([0, 0, 1, 2])
+    fill = [[[0, 2 * (j + 1)]] for j in range(H)]
     for _ in range(rng.randint(2, 3)):
         n = new()
         if rng.random() < 0.5:
-            prog.append(dict(op="new_exact_dgm", dgms=[rand_bars(rng, 0, 12, rng.randint(1, 4))], hom=0, res=[n], lazy=int(rng.random() < 0.4)))
+            prog.append(dict(op="new_exact_dgm", dgms=fill + [rand_bars(rng, 0, 12, rng.randint(1, 4))], hom=H, res=[n], lazy=int(rng.random() < 0.4)))
         else:
-            prog.append(dict(op="new_exact_cp", cps=rand_cp(rng, 0, 10), hom=0, res=[n]))
+            prog.append(dict(op="new_exact_cp", cps=rand_cp(rng, 0, 10), hom=H, res=[n]))
         exact.append(n)
     s = rng.choice([1, 2, 4]); nn = rng.randint(4, 9); a = rng.choice([0, 2, -2])
     for _ in range(rng.randint(2, 3)):
         n = new()
         if rng.random() < 0.5:
-            prog.append(dict(op="new_approx_dgm", dgms=[[[a + rng.randint(0, (nn - 1) * s - 1), 0] for _ in range(rng.randint(1, 3))]], hom=0, grid=[a, s, nn], res=[n], lazy=int(rng.random() < 0.4)))
-            for p in prog[-1]["dgms"][0]:
+            prog.append(dict(op="new_approx_dgm", dgms=fill + [[[a + rng.randint(0, (nn - 1) * s - 1), 0] for _ in range(rng.randint(1, 3))]], hom=H, grid=[a, s, nn], res=[n], lazy=int(rng.random() < 0.4)))
+            for p in prog[-1]["dgms"][H]:
                 p[1] = rng.randint(p[0] + 1, a + (nn - 1) * s)
-            prog[-1]["dgms"][0].append([a, a + (nn - 1) * s])   # a bar spanning the grid: the sampled landscape is never the "empty" sentinel
+            prog[-1]["dgms"][H].append([a, a + (nn - 1) * s])   # a bar spanning the grid: the sampled landscape is never the "empty" sentinel
         else:
             rows = [[0] + [rng.randint(-2, 5) for _ in range(nn - 2)] + [0] for _ in range(rng.randint(1, 3))]
-            prog.append(dict(op="new_approx_vals", vals=rows, hom=0, grid=[a, s, nn], res=[n], int=int(rng.random() < 0.5)))
+            prog.append(dict(op="new_approx_vals", vals=rows, hom=H, grid=[a, s, nn], res=[n], int=int(rng.random() < 0.5)))
         approx.append(n)
     # an approx on another grid (for snap / lc) and odd ones for rejections
     og = new(); s2 = rng.choice([1, 2]); n2 = rng.randint(3, 7); a2 = a + rng.choice([-2, 0, 1, 3])
     if (a2, s2, n2) == (a, s, nn):
         n2 += 1
-    prog.append(dict(op="new_approx_vals", vals=[[0] + [rng.randint(0, 4) for _ in range(n2 - 2)] + [0]], hom=0, grid=[a2, s2, n2], res=[og], int=int(rng.random() < 0.5)))
+    prog.append(dict(op="new_approx_vals", vals=[[0] + [rng.randint(0, 4) for _ in range(n2 - 2)] + [0]], hom=H, grid=[a2, s2, n2], res=[og], int=int(rng.random() < 0.5)))
     oh = new()
-    prog.append(dict(op="new_exact_cp", cps=rand_cp(rng, 0, 6), hom=1, res=[oh]))
+    prog.append(dict(op="new_exact_cp", cps=rand_cp(rng, 0, 6), hom=H + 1, res=[oh]))
     fr = 0
     for _ in range(rng.randint(3, 9)):
         kind = rng.choice(["e", "e", "a", "a", "snap", "lc", "rej", "extreme"])
